@@ -701,6 +701,74 @@ func topUnknown(st *ref.StructT, b []byte) (int, error) {
 	return n, nil
 }
 
+// freshCache holds, per driver (scratch module root), the dump of a freshly
+// constructed object of every struct that declares a default.
+var freshCache = map[string]map[string]interface{}{}
+
+// freshObject asks the driver for a newly constructed object of a struct.
+func freshObject(sess *drv.Session, st *ref.StructT) (*ref.StructV, error) {
+	ti, ok := sess.Type(st.Name)
+	if !ok {
+		return nil, nil
+	}
+	byName := freshCache[sess.Mod.Root]
+	if byName == nil {
+		if len(freshCache) > 16 {
+			freshCache = map[string]map[string]interface{}{}
+		}
+		byName = map[string]interface{}{}
+		freshCache[sess.Mod.Root] = byName
+	}
+	raw, ok := byName[st.Name]
+	if !ok {
+		r, err := mkCaller(sess)(map[string]interface{}{"op": "new", "type": ti.Key})
+		if err != nil {
+			return nil, err
+		}
+		raw = r["value"]
+		byName[st.Name] = raw
+	}
+	fv, err := ref.StructFromJSON(st, raw)
+	if err != nil {
+		return nil, fmt.Errorf("harness: fresh %s: %v", st.Name, err)
+	}
+	sv, _ := fv.(*ref.StructV)
+	return sv, nil
+}
+
+// materialiseDefaults replaces the declared defaults of the (imported, hence
+// private) schema by what the constructor of the generated code puts into a
+// new object.  The reference evaluation of a struct literal holds only the
+// fields the literal names, the Go object also holds the zero values of the
+// other non-optional fields; "an optional field that holds its default is
+// unset" has to be decided against the default as the code under test builds
+// it (whether that is the right default is C06's property, and both versions
+// declare the same defaults by construction).
+func materialiseDefaults(sess *drv.Session, sch *ref.Schema) error {
+	for _, st := range sch.Structs {
+		has := false
+		for _, f := range st.Fields {
+			has = has || f.HasDef
+		}
+		if !has {
+			continue
+		}
+		fr, err := freshObject(sess, st)
+		if err != nil {
+			return err
+		}
+		if fr == nil {
+			continue
+		}
+		for _, f := range st.Fields {
+			if fv, ok := fr.F[f.ID]; ok && f.HasDef {
+				f.Default = fv
+			}
+		}
+	}
+	return nil
+}
+
 // judgeEvo decides one case.  With excludeKnown (generator side only, never
 // in replay) the exact shape of the listed finding is left out.
 func judgeEvo(c evoCase, excludeKnown bool) outcome {
@@ -725,6 +793,12 @@ func judgeEvo(c evoCase, excludeKnown bool) outcome {
 	schOld, err := ref.Import(c.SchemaOld)
 	if err != nil {
 		return outcome{status: "harness", err: fmt.Errorf("harness: %v", err)}
+	}
+	if err := materialiseDefaults(sNew, schNew); err != nil {
+		return outcome{status: "harness", err: err}
+	}
+	if err := materialiseDefaults(sOld, schOld); err != nil {
+		return outcome{status: "harness", err: err}
 	}
 	nst, ost := schNew.ByName(c.Struct), schOld.ByName(c.Struct)
 	if nst == nil || ost == nil {
@@ -793,19 +867,11 @@ func judgeEvo(c evoCase, excludeKnown bool) outcome {
 			if o == nil || len(o.Fields) == len(st.Fields) {
 				continue
 			}
-			ti, ok := sNew.Type(st.Name)
-			if !ok {
-				continue
-			}
-			r, err := callNew(map[string]interface{}{"op": "new", "type": ti.Key})
+			sv, err := freshObject(sNew, st)
 			if err != nil {
 				return err
 			}
-			fv, err := ref.StructFromJSON(st, r["value"])
-			if err != nil {
-				return fmt.Errorf("harness: fresh %s: %v", st.Name, err)
-			}
-			if sv, ok := fv.(*ref.StructV); ok {
+			if sv != nil {
 				fresh[st.Name] = sv
 			}
 		}
